@@ -967,7 +967,7 @@ def mon_closed_at_end(ctx, conn):
 
 def run_c10(ctx):
     return run_family(ctx, ["srv-goaway", "srv-acct"], [lambda c, k: mon_goaway(c, k) and None, mon_conn_offence, mon_prompt_close_unmarked, mon_closed_at_end],
-                      "srv-goaway: one of 21 connection-scoped offences (frame size, CONTINUATION sequencing, even/lower stream id, SETTINGS values, flow-control, compression, frames on idle streams, idle timeout, a trailer section without END_STREAM that goes on in CONTINUATION or cannot be decoded) after 0-3 requests (some still running) with trailing requests/pings.")
+                      "srv-goaway: one of 22 connection-scoped offences (frame size, CONTINUATION sequencing, even/lower stream id, SETTINGS values, flow-control incl. a SETTINGS change that overflows a stream window already at the top, compression, frames on idle streams, idle timeout, a trailer section without END_STREAM that goes on in CONTINUATION or cannot be decoded) after 0-3 requests (some still running) with trailing requests/pings.")
 
 
 def run_c13(ctx):
